@@ -161,7 +161,30 @@ example : (((List.replicate 12 Mark.fail).foldl (fun b m => b.mark 9 m) (Breaker
 
 /-! ## 5. "the calls recorded in the preceding 10 s window" -/
 
-/-- **The window the breaker decides on is the log of the calls of the preceding 40 aligned 250 ms buckets.**
+/-- **Any rolling window is a view of its log** — for EVERY size `n ≥ 1` and interval `d ≥ 1` (the code of
+core/collection/rollingwindow.go is generic; nothing here uses the breaker's 40 × 250 ms).  After any finite
+history of `Add`s and time gaps on `NewRollingWindow(…, n, d)` created at `t0`, at any time `now` not before the
+last event, the buckets `Reduce` visits are, oldest first, exactly the aggregates of all values ever added whose
+time falls into the aligned bucket number `idx(now) − (n−1) + i` (`idx(t) = ⌊(t − t0)/d⌋`): nothing older is
+counted, nothing inside is missing, and the `span` youngest (still empty) buckets are skipped. -/
+theorem rolling_window_is_log (n d : Nat) (hn : 1 ≤ n) (hd : 1 ≤ d) (t0 : Nat) (ops : List WOp) (now : Nat)
+    (hnow : ((WSys.init n d t0).run ops).now ≤ now) :
+    ((WSys.init n d t0).run ops).w.visible now =
+      (List.range (n - ((WSys.init n d t0).run ops).w.span now)).map fun i =>
+        Lget (logBucketD d t0 ((WSys.init n d t0).run ops).log) (bucketIdxD d t0 now) (n - 1 - i) :=
+  visible_of_inv n d t0 _ _ _ (WSys.inv_run n d hn hd t0 ops) now hnow
+
+/-- non-vacuity on an extreme geometry: a window of ONE bucket of 7 ns; a value added at t0+6 is visible until
+t0+6 (same bucket) and gone at t0+7 -/
+example : (((WSys.init 1 7 3).run [.tick 6, .add .fail]).w.visible 9).map (·.sum) = [1]
+    ∧ (((WSys.init 1 7 3).run [.tick 6, .add .fail]).w.visible 10) = [] := by decide
+
+/-- non-vacuity: 3 buckets of 5 ns, adds at t0, t0+5, t0+14; at t0+14 all three buckets are visible, oldest first -/
+example : (((WSys.init 3 5 100).run [.add .succ, .tick 5, .add .fail, .add .fail, .tick 9, .add .drop]).w.visible 114).map
+    (fun b => (b.sum, b.succ, b.fail, b.drop)) = [(1, 1, 0, 0), (2, 0, 2, 0), (1, 0, 0, 1)] := by decide
+
+/-- **The window the breaker decides on is the log of the calls of the preceding 40 aligned 250 ms buckets**
+(corollary of the generic refinement, instantiated at n = 40, d = 250 ms).
 After any finite history (any entry points, outcomes, draws, gaps from 0 to several windows), at any time
 `now` not before the last event, the buckets `history()` reduces over are, oldest first, exactly the aggregates
 of all marks ever recorded whose time falls into the aligned bucket number `idx(now) − 39 + i`
@@ -171,13 +194,8 @@ because nothing was recorded since `lastTime`, and are skipped.) -/
 theorem window_is_log (t0 : Nat) (ops : List Op) (now : Nat) (hnow : ((Sys.init t0).run ops).now ≤ now) :
     ((Sys.init t0).run ops).b.rw.visible now =
       (List.range (40 - ((Sys.init t0).run ops).b.rw.span now)).map fun i =>
-        Lget (logBucket t0 ((Sys.init t0).run ops).log) (bucketIdx t0 now) (39 - i) := by
-  obtain ⟨cur, hr, hl, ht⟩ := Sys.winInv_run t0 ops
-  have hv := visible_spec _ t0 cur _ hr now (Nat.le_trans hl hnow)
-  have hlt := hr.lt
-  have hidx : bucketIdx t0 now = cur + (now - ((Sys.init t0).run ops).b.rw.lastTime) / 250000000 := by
-    unfold bucketIdx intervalNs; omega
-  rw [hv, hidx]
+        Lget (logBucket t0 ((Sys.init t0).run ops).log) (bucketIdx t0 now) (39 - i) :=
+  visible_of_inv nBuckets intervalNs t0 _ _ _ (Sys.winInv_run t0 ops) now hnow
 
 /-- the totals the admission law is stated on are sums over those log buckets -/
 theorem history_totals (b : Breaker) (now : Nat) :
@@ -189,10 +207,11 @@ theorem history_totals (b : Breaker) (now : Nat) :
 /-- every log bucket satisfies `Sum = Success + Failure + Drop`: "non-accepted" is failures plus rejections -/
 theorem logBucket_balanced (t0 : Nat) (log : List (Nat × Mark)) (j : Nat) :
     (logBucket t0 log j).sum = (logBucket t0 log j).succ + (logBucket t0 log j).fail + (logBucket t0 log j).drop := by
+  unfold logBucket at *
   induction log with
   | nil => rfl
   | cons e rest ih =>
-    simp only [logBucket]
+    simp only [logBucketD]
     split
     · exact bucket_add_balanced _ _ ih
     · exact ih
@@ -235,14 +254,8 @@ theorem admitMark_table (e : Entry) (o : Outcome) : marksOf (doReqEvents .pass e
 /-- under any schedule the window still is the log of the preceding 40 aligned buckets -/
 theorem conc_window_is_log (env : Env) (t0 : Nat) (c : Cfg) (h : Reach env t0 c) (now : Nat) (hnow : c.clock ≤ now) :
     c.rw.visible now =
-      (List.range (40 - c.rw.span now)).map fun i => Lget (logBucket t0 c.log) (bucketIdx t0 now) (39 - i) := by
-  obtain ⟨cur, hr, hl, ht⟩ := wininv_reach env t0 c h
-  have hv := visible_spec _ t0 cur _ hr now (Nat.le_trans hl hnow)
-  have hlt := hr.lt
-  have hidx : bucketIdx t0 now = cur + (now - c.rw.lastTime) / 250000000 := by
-    simp only [] at hlt hl
-    unfold bucketIdx intervalNs; omega
-  rw [hv, hidx]
+      (List.range (40 - c.rw.span now)).map fun i => Lget (logBucket t0 c.log) (bucketIdx t0 now) (39 - i) :=
+  visible_of_inv nBuckets intervalNs t0 _ _ _ (wininv_reach env t0 c h) now hnow
 
 /-- non-vacuity: two goroutines interleave — thread 0 takes its snapshot, 7 ns pass, thread 1 takes its own -/
 example : ∃ c, Reach ⟨fun _ => 0, fun _ => ⟨false, false⟩, fun _ => .errU⟩ 3 c ∧ c.pc 0 = 1 ∧ c.pc 1 = 1 ∧ c.clock = 10 :=
